@@ -76,6 +76,11 @@ func (o OracleC17) AfterHalt(x *Exec, op *Op, res *Res) {
 
 type OracleC05 struct {
 	step int
+	// wiped: "validator|denom" pairs whose validator shares were dropped by an undelegation or
+	// redelegation although the stake left on the validator was not worthless (its share of the
+	// asset was well above the 1e-18 resolution): a zero-valued validator that arose this way is
+	// not the listed finding F-C05a (100% slash / share of the asset below 1e-18)
+	wiped map[string]bool
 }
 
 func (*OracleC05) Name() string           { return "C05" }
@@ -101,6 +106,26 @@ func (o *OracleC05) After(x *Exec, op *Op, res *Res) {
 	o.step++
 	w := x.W
 	s := x.Post()
+	if res.OK && (op.K == KUndelegate || op.K == KRedelegate) {
+		pre := x.Pre()
+		a, okA := pre.Assets[op.Denom]
+		pvs, ok1 := pre.Vals[op.V].ValShares[op.Denom]
+		nvs, ok2 := s.Vals[op.V].ValShares[op.Denom]
+		ntds, ok3 := s.Vals[op.V].DelShares[op.Denom]
+		if okA && ok1 && pvs.IsPositive() && (!ok2 || nvs.IsZero()) && ok3 && ntds.IsPositive() && a.TotalTokens.IsPositive() && a.TotalValidatorShares.IsPositive() {
+			// share of the asset the validator should be left with: (vs*T - amt*S) / (S*(T - amt))
+			S, T, amt := decRat(a.TotalValidatorShares), intRat(a.TotalTokens), new(big.Rat).SetInt(bigOf(op.Amt))
+			num := new(big.Rat).Sub(new(big.Rat).Mul(decRat(pvs), T), new(big.Rat).Mul(amt, S))
+			den := new(big.Rat).Mul(S, new(big.Rat).Sub(T, amt))
+			if den.Sign() > 0 && num.Sign() > 0 && new(big.Rat).Quo(num, den).Cmp(big.NewRat(1, 100_000_000_000_000_000)) >= 0 {
+				if o.wiped == nil {
+					o.wiped = map[string]bool{}
+				}
+				o.wiped[fmt.Sprintf("%d|%s", op.V, op.Denom)] = true
+				x.Label("c05:validator-shares-dropped-with-stake-left")
+			}
+		}
+	}
 	if x.Has("ok:"+KSlash) || x.Has("ok:"+KSlashHook) || x.Has("takerate-deducted") {
 		if len(s.Dels) >= 2 {
 			x.Label("c05:probed-after-slash-or-takerate")
@@ -193,6 +218,9 @@ func (o *OracleC05) After(x *Exec, op *Op, res *Res) {
 		refusal := strings.Contains(msg, "insufficient delegation shares") || strings.Contains(msg, "insufficient tokens") || strings.Contains(msg, "negative coin amount")
 		regime := roundTripRegime(s, d)
 		over := new(big.Rat).SetInt(bal.BigInt()).Cmp(s.PosValue(d)) > 0
+		if refusal && !strings.Contains(msg, "negative coin amount") && !refusalPredicted(s, d, bal, msg) {
+			x.Fail("C05", "exit", "position %s reports balance %s (exact value %s) and the module's documented acceptance rule admits undelegating it, but the module refuses: %s", d.Key(), bal, s.PosValue(d).FloatString(6), msg)
+		}
 		if refusal && (over || regime.Cmp(big.NewRat(1, 10)) >= 0) {
 			// tokens per delegator share on this validator: after a concentration of value by
 			// heavy slashing (factor g >= 8) the 18-digit shares-per-token ratio has so few
@@ -337,7 +365,7 @@ func (o *OracleC05) knownBlock(x *Exec, s *Snap, v int, denom string, msg string
 		// F-C05a: a validator whose token value in some asset is zero (as the module's
 		// 18-digit arithmetic sees it) while it carries delegator shares — after a 100%
 		// slash, or because its share of the asset is below 1e-18.
-		if o.zeroValued(s, v, denom) {
+		if o.zeroValued(s, v, denom) && !o.wiped[fmt.Sprintf("%d|%s", v, denom)] {
 			x.KnownFinding("F-C05a")
 			x.Label("c05:zero-valued-validator")
 			return true
